@@ -331,6 +331,10 @@ int simk_sigemptyset(sigset_t *s) {
   return sigemptyset(s);
 }
 
+int simk_sigaddset(sigset_t *s, int sig) { return sigaddset(s, sig); }
+int simk_sigdelset(sigset_t *s, int sig) { return sigdelset(s, sig); }
+int simk_sigismember(const sigset_t *s, int sig) { return sigismember(s, sig); }
+
 int simk_getrlimit(int res, struct rlimit *rl) {
   Kernel *k = K;
   k->enter_call(K_getrlimit);
@@ -373,10 +377,13 @@ int simk_chdir(const char *path) {
 int simk_clock_gettime(clockid_t clk, struct timespec *ts) {
   Kernel *k = K; Thread *t = k->cur;
   k->enter_call(K_clock_gettime);
-  int64_t ns = k->now_ns + (clk == CLOCK_REALTIME ? k->epoch_ms * 1000000 : 5000ll * 1000000000ll);
+  bool wall = clk == CLOCK_REALTIME || clk == CLOCK_REALTIME_COARSE;
+  int64_t ns = k->now_ns + (wall ? k->epoch_ms * 1000000 : 5000ll * 1000000000ll);
+  if (wall && k->w.clock_step_at_ms >= 0 && k->now_ns >= k->w.clock_step_at_ms * 1000000) { ns += k->w.clock_step_ms * 1000000; k->n_stepped_reads++; }
   ts->tv_sec = ns / 1000000000;
   ts->tv_nsec = ns % 1000000000;
-  if (k->hooks && libctx(t)) k->hooks->on_clock(t, ns / 1000000);
+  // the harness measures on the true (elapsed) time line whatever clock the library chose to read
+  if (k->hooks && libctx(t)) k->hooks->on_clock(t, k->epoch_ms + k->now_ns / 1000000);
   k->logrec(K_clock_gettime, clk, ns / 1000000, 0, 0, 0);
   return 0;
 }
@@ -439,6 +446,7 @@ void *simk_malloc(size_t n) {
   if (k->fault_for(K_malloc)) { errno = ENOMEM; k->logrec(K_malloc, (int64_t) n, 0, 0, 0, ENOMEM, RF_INJECTED); return nullptr; }
   void *p = malloc(n ? n : 1);
   if (!p) return nullptr;
+  memset(p, 0xA5, n);  // recycled memory is never clean
   return ledger_add(k, p, n, K_malloc);
 }
 
@@ -479,6 +487,7 @@ void *simk_realloc(void *p, size_t n) {
   if (!p) {
     void *q = malloc(n ? n : 1);
     if (!q) return nullptr;
+    memset(q, 0xA5, n);
     return ledger_add(k, q, n, K_realloc);
   }
   auto it = k->heap.find(p);
@@ -486,6 +495,7 @@ void *simk_realloc(void *p, size_t n) {
   if (t && t->child && !it->second.child_made) {
     void *q = malloc(n ? n : 1);
     if (!q) return nullptr;
+    memset(q, 0xA5, n);
     memcpy(q, p, it->second.size < n ? it->second.size : n);
     it->second.child_freed = true;
     return ledger_add(k, q, n, K_realloc);
@@ -494,6 +504,7 @@ void *simk_realloc(void *p, size_t n) {
   k->heap.erase(it);
   void *q = realloc(p, n ? n : 1);
   if (!q) { k->heap[p] = b; return nullptr; }
+  if (n > b.size) memset((char *) q + b.size, 0xA5, n - b.size);  // the grown part holds whatever was there before
   b.size = n;
   if (libctx(t)) b.owner = OWN_LIB;
   k->heap[q] = b;
@@ -520,6 +531,64 @@ char *simk_strndup(const char *s, size_t m) {
   if (!p) return nullptr;
   memcpy(p, s, n); p[n] = 0;
   return (char *) ledger_add(k, p, n + 1, K_strdup);
+}
+
+// ---- environment editing (setenv & co.): plain edits of `environ`, which the fork snapshot saves and restores like the
+// rest of the image.  The arrays and strings are never freed (as with libc, whoever replaces environ owns the old one).
+static size_t env_count() { size_t n = 0; if (environ) while (environ[n]) n++; return n; }
+static char **env_find(const char *name, size_t len) {
+  if (!environ) return nullptr;
+  for (char **e = environ; *e; e++) if (strncmp(*e, name, len) == 0 && (*e)[len] == '=') return e;
+  return nullptr;
+}
+int simk_setenv(const char *name, const char *value, int overwrite) {
+  K->enter_call(K_getenv);
+  if (!name || !*name || strchr(name, '=')) { errno = EINVAL; return -1; }
+  size_t ln = strlen(name), lv = strlen(value ? value : "");
+  char **slot = env_find(name, ln);
+  if (slot && !overwrite) return 0;
+  char *str = (char *) malloc(ln + lv + 2);
+  if (!str) { errno = ENOMEM; return -1; }
+  memcpy(str, name, ln); str[ln] = '='; memcpy(str + ln + 1, value ? value : "", lv + 1);
+  if (slot) { *slot = str; return 0; }
+  size_t n = env_count();
+  char **ne = (char **) malloc((n + 2) * sizeof(char *));
+  if (!ne) { errno = ENOMEM; return -1; }
+  for (size_t i = 0; i < n; i++) ne[i] = environ[i];
+  ne[n] = str; ne[n + 1] = nullptr;
+  environ = ne;
+  return 0;
+}
+int simk_unsetenv(const char *name) {
+  K->enter_call(K_getenv);
+  if (!name || !*name || strchr(name, '=')) { errno = EINVAL; return -1; }
+  size_t ln = strlen(name), n = env_count();
+  char **ne = (char **) malloc((n + 1) * sizeof(char *));
+  if (!ne) { errno = ENOMEM; return -1; }
+  size_t j = 0;
+  for (size_t i = 0; i < n; i++) if (!(strncmp(environ[i], name, ln) == 0 && environ[i][ln] == '=')) ne[j++] = environ[i];
+  ne[j] = nullptr;
+  environ = ne;
+  return 0;
+}
+int simk_putenv(char *string) {
+  K->enter_call(K_getenv);
+  const char *eq = strchr(string, '=');
+  if (!eq) return simk_unsetenv(string);
+  char **slot = env_find(string, (size_t) (eq - string));
+  if (slot) { *slot = string; return 0; }
+  size_t n = env_count();
+  char **ne = (char **) malloc((n + 2) * sizeof(char *));
+  if (!ne) { errno = ENOMEM; return -1; }
+  for (size_t i = 0; i < n; i++) ne[i] = environ[i];
+  ne[n] = string; ne[n + 1] = nullptr;
+  environ = ne;
+  return 0;
+}
+int simk_clearenv(void) {
+  K->enter_call(K_getenv);
+  environ = nullptr;
+  return 0;
 }
 
 }  // extern "C"
